@@ -289,16 +289,20 @@ class ObjectConstraints(BaseConstraints, ObjectBase):
     def apply_hard_constraints(
         self, obj: torch.Tensor, mask: torch.Tensor | None = None
     ) -> torch.Tensor:
+        use_fov_mask = mask is not None and self.constraints["apply_fov_mask"]
         if self.obj_type in ["complex", "pure_phase"]:
             if self.obj_type == "complex":
                 amp = torch.clamp(torch.abs(obj), 0.0, 1.0)
+                if use_fov_mask:
+                    amp = amp * mask
             else:
+                # pure phase: unit amplitude everywhere, the FOV mask acts on the phase only
+                # (as it acts on the potential below; cf. ObjectDIP.forward)
                 amp = 1.0
             phase = obj.angle() - obj.angle().mean()
-            if mask is not None and self.constraints["apply_fov_mask"]:
-                obj2 = amp * mask * torch.exp(1.0j * phase * mask)
-            else:
-                obj2 = amp * torch.exp(1.0j * phase)
+            if use_fov_mask:
+                phase = phase * mask
+            obj2 = amp * torch.exp(1.0j * phase)
         else:  # potential
             if self.constraints["fix_potential_baseline"]:
                 if mask is not None:
@@ -319,8 +323,8 @@ class ObjectConstraints(BaseConstraints, ObjectBase):
             else:
                 obj2 = obj - offset
 
-        if self.constraints["apply_fov_mask"] and mask is not None:
-            obj2 *= mask
+            if use_fov_mask:
+                obj2 = obj2 * mask
 
         # want backwards compatibility for gaussian_sigma and q_lowpass/q_highpass, so use get
         if self.constraints.get("gaussian_sigma") is not None:
